@@ -124,6 +124,9 @@ Section Gen.
                  (length (filter is_pos args)) (length (filter is_named args)) ps])
     | ELambda _ _ _ _ => dflt [UNSUPPORTED "compile:lambda"]
     | EComp _ _ _ _ _ => dflt [UNSUPPORTED "compile:comprehension"]
+    | ESlice x lo hi st ps =>
+        let o (e : option expr) := match e with Some e => fst (gen e) | None => [NONE] end in
+        dflt (fst (gen x) ++ o lo ++ o hi ++ o st ++ [SLICE ps])
     end.
 
   Definition gen_expr (e : expr) : list insn := fst (gen e).
@@ -265,6 +268,7 @@ Fixpoint fold_expr (fuel : nat) (e : expr) {struct fuel} : expr :=
         EComp c (f b) (f bv) cp (map (fun cl => match cl with
                                                | CFor t x ps => CFor (ft t) (f x) ps
                                                | CIf x => CIf (f x) end) cls)
+    | ESlice x lo hi st ps => ESlice (f x) (option_map f lo) (option_map f hi) (option_map f st) ps
     end
   end
 with fold_target (fuel : nat) (t : target) {struct fuel} : target :=
